@@ -177,6 +177,11 @@ def run(ctx: Context) -> None:
         a0 = flow.resolve(sc.args[0]) if sc.args else None
         ok = (idx is not None and isinstance(a0, ast.Subscript) and flow.canon(a0.value) == ('param', mh.params[0])
               and flow.canon(a0.slice) == flow.canon(idx))
+        if not ok and idx is not None and isinstance(a0, ast.Subscript) and flow.canon(a0.value) == ('param', mh.params[0]):
+            # points[<row test>] with indices=flatnonzero(<the same row test>): a boolean selection takes the rows at the True positions, in order
+            iv0 = flow.resolve(idx)
+            ok = isinstance(iv0, ast.Call) and callee(ctx, mh, iv0) == 'numpy.flatnonzero' and len(iv0.args) == 1 and not iv0.keywords \
+                and flow.canon(iv0.args[0]) == flow.canon(a0.slice)
         ctx.check('R02.3', ok, "the rows turned into polygons are points[rows] with rows passed as indices=", mh, sc)
         iv = flow.resolve(idx) if idx is not None else None
         ok = False
@@ -248,11 +253,12 @@ def run(ctx: Context) -> None:
         flow = ctx.flow(bfc)
         comps = [n for n in ast.walk(bfc.node) if isinstance(n, ast.ListComp)]
         ok = False
+        from .common import expand_locals as _xl02
         if len(comps) == 1:
             g = comps[0].generators[0]
             ok = (len(comps[0].generators) == 1 and not g.ifs and flow.canon(g.iter) == ('attr', ('param', 'self'), 'polygons')
                   and isinstance(comps[0].elt, ast.IfExp) and 'centroid' in norm_text(comps[0].elt.orelse)
-                  and norm_text(comps[0].elt.test) == f"{g.target.id} is None" and 'nan' in norm_text(comps[0].elt.body))
+                  and norm_text(comps[0].elt.test) == f"{g.target.id} is None" and 'nan' in norm_text(_xl02(flow, comps[0].elt.body)))
             # (conditional expressions are normalised to their positive test: `nan if polygon is None else centroid`)
         ctx.check('R02.4', ok, "generic face centres: one entry per polygon in order, NaN for holes", bfc, comps[0] if comps else bfc.node)
 
